@@ -15,7 +15,7 @@ import (
 func init() {
 	register(&Spec{ID: "C16", Title: "Decimal text conversion preserves the numeric value", Run: runC16,
 		Meta: core.Meta{
-			Explanation: "Two rejection clauses of the property are decided; digit arithmetic is not. R16.1 ('invalid precision/scale combinations are rejected at construction'): every success return of NewDecimal and NewDecimalString is dominated by sanity() having returned nil, and sanity's error guards, normalised to half-planes over (Precision, Scale), cover the complement of the valid region 0 <= scale <= precision <= 38, i.e. {P < 0, P > 38, S < 0, S > P}. R16.2 ('input that cannot be represented is rejected'): every success return of SetString is dominated by a comparison of the fraction's length with Scale whose failing edge returns an error, and by big.Int.SetString having reported ok. R16.4 ('rejected instead of silently changing the value'): every math/big call in SetString that modifies its receiver (SetString, Mul, ...) works on a big.Int allocated by that very call, never on dec.i or an alias of it, so an error return leaves the decimal — and every copy sharing its pointer — untouched. R16.5 ('for every precision 1..38 and scale'): every slice/string index and slice expression in the methods of Decimal is proved in range by E-LEN or rests on the reviewed invariant 0 <= Scale <= Precision, whose premises (R10.6) are re-checked — a formatting shortcut that slices a fixed pad or digit table can panic for some precision. R16.6: no method of Decimal other than its mutators by contract (Set*, Negate) calls a receiver-modifying math/big method (Abs, Neg, Mul, Set, ...) on dec.i itself — String() on a negative value would otherwise leave the decimal positive, and the text just produced would no longer denote the stored value. R16.3: the magnitude is only ever produced by math/big operations on the parsed digits inside SetString (the assigned value is the *big.Int that SetString parsed and Mul scaled).",
+			Explanation: "Two rejection clauses of the property are decided; digit arithmetic is not. R16.1 ('invalid precision/scale combinations are rejected at construction'): every success return of NewDecimal and NewDecimalString is dominated by sanity() having returned nil, and sanity's error guards, normalised to half-planes over (Precision, Scale), cover the complement of the valid region 0 <= scale <= precision <= 38, i.e. {P < 0, P > 38, S < 0, S > P}. R16.2 ('input that cannot be represented is rejected'): every success return of SetString is dominated by a comparison of the fraction's length with Scale whose failing edge returns an error, and by big.Int.SetString having reported ok. R16.4 ('rejected instead of silently changing the value'): every math/big call in SetString that modifies its receiver (SetString, Mul, ...) works on a big.Int allocated by that very call, never on dec.i or an alias of it, so an error return leaves the decimal — and every copy sharing its pointer — untouched. R16.5 ('for every precision 1..38 and scale'): every slice/string index and slice expression in the methods of Decimal is proved in range by E-LEN or rests on the reviewed invariant 0 <= Scale <= Precision, whose premises (R10.6) are re-checked — a formatting shortcut that slices a fixed pad or digit table can panic for some precision. R16.6: no method of Decimal other than its mutators by contract (Set*, Negate) calls a receiver-modifying math/big method (Abs, Neg, Mul, Set, ...) on dec.i itself — String() on a negative value would otherwise leave the decimal positive, and the text just produced would no longer denote the stored value. R16.7: every big.Int.Int64()/Uint64() call in a method of Decimal is guarded by IsInt64()/IsUint64() on the same value or by a BitLen test. R16.3: the magnitude is only ever produced by math/big operations on the parsed digits inside SetString (the assigned value is the *big.Int that SetString parsed and Mul scaled).",
 			NotDecided:  "The format/parse round trip, the canonical text form and all digit arithmetic (padding, splitting at precision-scale, powers of ten) are value-level and not decided; seeded changes that overflow an int64 fast path or a float power of ten are not detectable by these rules.",
 			Assumptions: []string{"math/big semantics"},
 		}})
@@ -31,6 +31,8 @@ func runC16(r *core.Run) {
 	defer c16Sites(r)
 	r.Rule("R16.6", "formatting and reading a decimal do not modify it", 1, false)
 	defer c16ReadOnly(r)
+	r.Rule("R16.7", "no method of Decimal narrows the magnitude to a machine word without a width guard", 1, false)
+	defer c16NoBlindNarrowing(r)
 
 	sanity := p.Func("asetypes", "Decimal", "sanity")
 	fP := p.Field("asetypes", "Decimal", "Precision")
@@ -324,4 +326,47 @@ func c16ReadOnly(r *core.Run) {
 		}
 	}
 	r.Check(n > 0, "R16.6", "Decimal methods other than the mutators (Set*, Negate) leave dec.i untouched", token.NoPos, fmt.Sprintf("%d methods inspected", n), "no methods of Decimal found")
+}
+
+// c16NoBlindNarrowing: R16.7. A Decimal holds up to 38 digits. Wherever a method of Decimal narrows the magnitude to
+// a machine word (big.Int.Int64 / Uint64) the call is guarded by IsInt64()/IsUint64() (or a BitLen test) on the same
+// value; an unguarded narrowing answers for a different number once the value has more than 63 bits (two decimals
+// 2^64 apart compare equal, a text loses its leading digits).
+func c16NoBlindNarrowing(r *core.Run) {
+	p := r.Prog
+	dec := p.Named("asetypes", "Decimal")
+	n := 0
+	for _, fn := range p.ModuleFuncs() {
+		if fn.Blocks == nil || core.RecvNamed(fn) == nil || core.RecvNamed(fn).Obj() != dec.Obj() {
+			continue
+		}
+		n++
+		for _, c := range core.Calls(fn) {
+			f := core.StaticCallee(c)
+			if f == nil || f.Pkg == nil || f.Pkg.Pkg.Path() != "math/big" || (f.Name() != "Int64" && f.Name() != "Uint64") || len(c.Common().Args) == 0 {
+				continue
+			}
+			recv := c.Common().Args[0]
+			guarded := false
+			for _, g := range core.GuardsAt(c.(ssa.Instruction)) {
+				gc, ok := g.Cond.(*ssa.Call)
+				if ok && g.Pol {
+					if gf := core.StaticCallee(gc); gf != nil && gf.Pkg != nil && gf.Pkg.Pkg.Path() == "math/big" && (gf.Name() == "IsInt64" || gf.Name() == "IsUint64") && len(gc.Call.Args) > 0 && core.Strip(gc.Call.Args[0]) == core.Strip(recv) {
+						guarded = true
+					}
+				}
+				if bo, ok := g.Cond.(*ssa.BinOp); ok {
+					for _, side := range []ssa.Value{bo.X, bo.Y} {
+						if bc, ok := side.(*ssa.Call); ok {
+							if gf := core.StaticCallee(bc); gf != nil && gf.Name() == "BitLen" && gf.Pkg != nil && gf.Pkg.Pkg.Path() == "math/big" {
+								guarded = true
+							}
+						}
+					}
+				}
+			}
+			r.Check(guarded, "R16.7", core.FuncName(fn)+": big.Int."+f.Name()+" under a width guard", c.Pos(), "guarded by IsInt64/IsUint64/BitLen", "the magnitude of a decimal (up to 38 digits) is narrowed with big.Int."+f.Name()+"() without an IsInt64()/IsUint64()/BitLen guard: for values beyond 63 bits the method answers for a different number (e.g. two decimals 2^64 apart compare equal)")
+		}
+	}
+	r.Check(n > 0, "R16.7", "Decimal methods inspected for unguarded narrowing", token.NoPos, fmt.Sprintf("%d methods", n), "no methods of Decimal found")
 }
